@@ -20,8 +20,8 @@ DENSITY_FAMILIES = [
     #  same numeric value (leading zero or not) are observed, not asserted.
     (2.7, ['2.7', '2.70', '2.700']),
     (1.0, ['1.0', '1.00', '1.000', '1.']),
-    (2.0, ['2.', '2.0', '2.00']),
-    (0.064, ['6.4-2', '6.4e-2', '6.4E-2', '6.4d-2', '6.4D-2']),
+    (2.0, ['2.', '2.0', '2.00', '2+0', '2']),
+    (0.064, ['6.4-2', '6.4e-2', '6.4E-2', '6.4d-2', '6.4D-2', '64-3']),
     (10.5, ['10.5', '10.50', '10.500']),
     (0.5, ['.5', '.50', '.500']),
     (0.5, ['0.5', '0.50']),
@@ -681,8 +681,11 @@ def twin_fill_case(draw, tier='quick', mirrors=False):
     """One universe placed in 2-3 level-0 containers by fill transformations
     that share their displacement and are related matrix-wise (equal, turned
     about one axis, or - with ``mirrors`` - composed with a reflection
-    diag(+-1, +-1, +-1)).  Reflections are not rigid motions: decks with the
-    label ``mirror`` are only used by reference-free checks (C13, C08, C18)."""
+    diag(+-1, +-1, +-1)).  A reflection is read as written (the universe
+    appears mirrored: a = B (p - o) with an improper B); the converter keeps
+    the handedness of a matrix on purpose (adjust_matrix).  Used with
+    ``mirrors`` by C13, C08, C18 and, since the mirrored reading proved quiet
+    on the unchanged tree, by C05."""
     b = Builder(draw, tier, {'lattice': False})
     d = draw
     W = 5.0
@@ -699,6 +702,13 @@ def twin_fill_case(draw, tier='quick', mirrors=False):
                                'generic')))
     R0 = np.array(R0).reshape(3, 3)
     b.labels.add('twin-fill')
+    # 'one-axis': the copies differ by the sign of one axis only (a universe
+    # and its mirror image side by side)
+    pair_mode = d(st.sampled_from(['free', 'free', 'one-axis'])) if mirrors \
+        else 'free'
+    mirror_axis = d(st.integers(0, 2))
+    if pair_mode == 'one-axis':
+        b.labels.add('twin-fill:one-axis-mirror')
     for i in range(n):
         terms = [md.S(-world)]
         if i > 0:
@@ -706,12 +716,17 @@ def twin_fill_case(draw, tier='quick', mirrors=False):
         if i < len(planes):
             terms.append(md.S(-planes[i]))
         expr = md.AND(*terms) if len(terms) > 1 else terms[0]
-        if mirrors:
+        if pair_mode == 'one-axis':
+            diag = [1.0, 1.0, 1.0]
+            diag[mirror_axis] = 1.0 if i % 2 == 0 else -1.0
+            D = np.diag(diag)
+        elif mirrors:
             D = np.diag([float(d(st.sampled_from([1, 1, -1])))
                          for _ in range(3)])
         else:
             D = np.eye(3)
-        how = d(st.sampled_from(['same', 'same', 'turned']))
+        how = 'same' if pair_mode == 'one-axis' else \
+            d(st.sampled_from(['same', 'same', 'turned']))
         R = R0
         if how == 'turned':
             _c, Rt = d(gen.rotation(('axis', 'small')))
